@@ -122,7 +122,7 @@ static void (*real_abort)(void) __attribute__((noreturn));
 /* ------------------------------------------------------------------------- */
 
 enum { K_FAULT, K_ACTION, K_PAUSE, K_KILL };
-enum { A_TRUNCATE, A_APPEND, A_UNLINK, A_REPLACE_DIR, A_REPLACE_SYMLINK, A_TOUCH, A_WRITE_AT };
+enum { A_TRUNCATE, A_APPEND, A_UNLINK, A_REPLACE_DIR, A_REPLACE_SYMLINK, A_TOUCH, A_WRITE_AT, A_REPLACE_FILE };
 
 struct spec {
     int kind;
@@ -401,6 +401,7 @@ static int fd_isdir(int fd)
 /* configuration                                                               */
 /* ------------------------------------------------------------------------- */
 
+static void parse_short(void);
 static int parse_long(const char *s, size_t len, long *out)
 {
     if (len == 0 || len > 18) return -1;
@@ -568,6 +569,10 @@ static int parse_action_text(struct spec *sp)
     } else if (strcmp(a, "touch") == 0) {
         sp->act = A_TOUCH;
         return 0;
+    } else if (strncmp(a, "replace-file:", 13) == 0) {
+        /* a new file of N bytes ('R') is renamed over the path: new inode, new size, new mtime */
+        sp->act = A_REPLACE_FILE;
+        return parse_long(a + 13, strlen(a + 13), &sp->a);
     } else if (strncmp(a, "write-at:", 9) == 0) {
         sp->act = A_WRITE_AT;
         return parse_two_longs(a + 9, &sp->a, &sp->b);
@@ -827,6 +832,7 @@ static void load_config(int claim_owner)
         parse_list("VSBSHIM_KILL", parse_kill);
         parse_list("VSBSHIM_ACTION", parse_action);
         parse_list("VSBSHIM_PAUSE", parse_pause);
+        parse_short();
         for (int i = 0; i < g_nspec; i++)
             if (!g_spec[i].by_seq && strcmp(g_spec[i].call, "readdir") == 0)
                 g_has_readdir_spec = 1;
@@ -1012,6 +1018,25 @@ static void do_action(const ev_t *e, const struct spec *sp)
     case A_TOUCH:
         r = syscall(SYS_utimensat, AT_FDCWD, p, NULL, 0);
         break;
+    case A_REPLACE_FILE: {
+        char tmp[PMAX + 16];
+        snprintf(tmp, sizeof tmp, "%s.vsbshim-new", p);
+        long fd = syscall(SYS_openat, AT_FDCWD, tmp, O_WRONLY | O_CREAT | O_TRUNC | O_CLOEXEC, 0644);
+        if (fd >= 0) {
+            char blk[4096];
+            memset(blk, 'R', sizeof blk);
+            long left = sp->a;
+            r = 0;
+            while (left > 0 && r >= 0) {
+                long w = syscall(SYS_write, fd, blk, left > (long)sizeof blk ? sizeof blk : (size_t)left);
+                if (w <= 0) { r = -1; break; }
+                left -= w;
+            }
+            syscall(SYS_close, fd);
+            if (r >= 0) r = syscall(SYS_renameat, AT_FDCWD, tmp, AT_FDCWD, p);
+        }
+        break;
+    }
     }
     trace_line(e->seq, NULL, "ACTION", p, sp->arg, 1, r, r < 0 ? errno : 0);
 }
@@ -1258,8 +1283,30 @@ EXPORT int close(int fd)
     ev_end(&e, NULL, (long)r, r < 0, err);                                    \
     return r;
 
+/* VSBSHIM_SHORT=<path>=<N>: read(2) on that file returns at most N bytes per call (legal short reads) */
+static char g_short_path[PMAX];
+static size_t g_short_n;
+
+static void parse_short(void)
+{
+    g_short_n = 0;
+    const char *v = getenv("VSBSHIM_SHORT");
+    if (!v || !*v) return;
+    const char *eq = strrchr(v, '=');
+    if (!eq || eq == v || (size_t)(eq - v) >= PMAX) return;
+    long n = 0;
+    if (parse_long(eq + 1, strlen(eq + 1), &n) != 0 || n < 1) return;
+    memcpy(g_short_path, v, (size_t)(eq - v));
+    g_short_path[eq - v] = 0;
+    g_short_n = (size_t)n;
+}
+
 EXPORT ssize_t read(int fd, void *buf, size_t n)
 {
+    if (g_short_n && n > g_short_n && fs_on()) {
+        char q[PMAX];
+        if (fd_get(fd, q) && strcmp(q, g_short_path) == 0) n = g_short_n;
+    }
     FD_CALL(ssize_t, read, "read", "%zu", n, real_read(fd, buf, n))
 }
 
